@@ -1166,24 +1166,28 @@ impl<D: DependencyProvider, RT: AsyncRuntime> Solver<D, RT> {
                 } else {
                     // We could not find another literal to watch, which means the remaining
                     // watched literal must be set to true.
-                    let decided = self
-                        .state
-                        .decision_tracker
-                        .try_add_decision(
-                            Decision::new(
-                                other_watched_literal.variable(),
-                                other_watched_literal.satisfying_value(),
-                                clause_id,
-                            ),
-                            level,
-                        )
-                        .map_err(|_| {
-                            PropagationError::Conflict(
+                    let decided = match self.state.decision_tracker.try_add_decision(
+                        Decision::new(
+                            other_watched_literal.variable(),
+                            other_watched_literal.satisfying_value(),
+                            clause_id,
+                        ),
+                        level,
+                    ) {
+                        Ok(decided) => decided,
+                        Err(()) => {
+                            // The decision whose propagation is interrupted here does not
+                            // necessarily belong to the levels that are undone next (it can be the
+                            // rejection of an earlier soft requirement): make sure the remaining
+                            // clauses that watch it are still visited if it survives.
+                            self.state.decision_tracker.repropagate_last();
+                            return Err(PropagationError::Conflict(
                                 other_watched_literal.variable(),
                                 true,
                                 clause_id,
-                            )
-                        })?;
+                            ));
+                        }
+                    };
 
                     if decided {
                         match clause {
